@@ -44,8 +44,9 @@ pub struct Twin {
     pub acct1: usize,
     pub lender0: usize,
     pub liquidator0: usize,
-    /// pass-through banks of group 0 / their twins in group 1 (Kamino on mint A, Solend on mint B)
-    pub venue: Option<[usize; 4]>,
+    /// pass-through banks [kamino g0, kamino g1, solend g0, solend g1, drift g0, drift g1]
+    /// (Kamino and Drift on mint A, Solend on mint B)
+    pub venue: Option<[usize; 6]>,
 }
 
 /// Two structurally identical groups over the same mints (so that every account of group 0 has a
@@ -101,8 +102,16 @@ pub async fn build_twin_v(seed: u64, r: &mut R, with_venue: bool) -> (World, Twi
             sc.oracle_max_age = 600;
             vb[gi * 2 + 1] = w.add_bank_solend(g, mb, sc, PythPx::simple(20_000_000, -6, now), 3_000_000_007, 1_000_000_003, 7).await.expect("solend bank");
         }
-        // order: [kamino g0, kamino g1, solend g0, solend g1]
-        venue = Some([vb[0], vb[2], vb[1], vb[3]]);
+        let mut db = [0usize; 2];
+        for (gi, g) in [g0, g1].into_iter().enumerate() {
+            let mut dc = marginfi::state::drift::DriftConfigCompact::default();
+            dc.deposit_limit = u64::MAX;
+            dc.total_asset_value_init_limit = 0;
+            dc.oracle_max_age = 600;
+            db[gi] = w.add_bank_drift(g, ma, dc, PythPx::simple(1_000_000, -6, now), 10_512_345_678, 3, 8).await.expect("drift bank");
+        }
+        // order: [kamino g0, kamino g1, solend g0, solend g1, drift g0, drift g1]
+        venue = Some([vb[0], vb[2], vb[1], vb[3], db[0], db[1]]);
     }
     let t = Twin { g0, g1, a0: idx[0], b0: idx[1], a1: idx[2], b1: idx[3], user, acct0, acct1, lender0, liquidator0, venue };
     // liquidity and positions in both groups
@@ -128,8 +137,8 @@ pub async fn build_twin_v(seed: u64, r: &mut R, with_venue: bool) -> (World, Twi
     }
     if let Some(vb) = t.venue {
         let k = w.auth_of(acct0);
-        for (acct, kb, sb) in [(acct0, vb[0], vb[2]), (acct1, vb[1], vb[3])] {
-            for b in [kb, sb] {
+        for (acct, kb, sb, dbk) in [(acct0, vb[0], vb[2], vb[4]), (acct1, vb[1], vb[3], vb[5])] {
+            for b in [kb, sb, dbk] {
                 let i = w.ix_venue_deposit(acct, b, k.pubkey(), w.ta_of(acct, b), 50_000);
                 let o = w.raw_send(&[i], &[&k]).await;
                 assert!(o.ok(), "venue deposit in twin world failed: {}", o.err_string());
@@ -239,7 +248,8 @@ pub async fn cases(w: &mut World, t: &Twin) -> Vec<Case> {
     }
     // ---- pass-through (venue) instructions: same authority rule, bound venue accounts
     if let Some(vb) = t.venue {
-        for (vname, b_own, b_twin, prog_slot) in [("kamino", vb[0], vb[1], 17usize), ("solend", vb[2], vb[3], 18usize)] {
+        for (vname, b_own, b_twin, prog_slot) in [("kamino", vb[0], vb[1], 17usize), ("solend", vb[2], vb[3], 18usize), ("drift", vb[4], vb[5], 14usize)] {
+            let drift = vname == "drift";
             let (bk, bk_twin) = (w.banks[b_own].key, w.banks[b_twin].key);
             let (vk, vk_twin) = (w.banks[b_own].venue.unwrap(), w.banks[b_twin].venue.unwrap());
             let sib = w.banks[t.a0].k;
@@ -250,9 +260,10 @@ pub async fn cases(w: &mut World, t: &Twin) -> Vec<Case> {
                 let mut subs = user_subs(0, 1, 3, bk_twin, bclone);
                 subs.push((5, "vault authority->sibling bank's".into(), sib.lva));
                 subs.push((6, "liquidity vault->sibling bank's vault".into(), sib.lv));
-                subs.push((7, "venue obligation->foreign group's bank's obligation".into(), vk_twin.obligation));
-                subs.push((10, "venue reserve->foreign group's bank's reserve".into(), vk_twin.reserve));
-                subs.push((prog_slot, "venue program->foreign program".into(), FOREIGN_PROG));
+                // Drift account structs: user at 9, spot market at 11, program at 14 (deposit) / 21 (withdraw)
+                subs.push((if drift { 9 } else { 7 }, "venue obligation->foreign group's bank's obligation".into(), vk_twin.obligation));
+                subs.push((if drift { 11 } else { 10 }, "venue reserve->foreign group's bank's reserve".into(), vk_twin.reserve));
+                subs.push((if drift && !dep { 21 } else { prog_slot }, "venue program->foreign program".into(), FOREIGN_PROG));
                 let _ = vk;
                 v.push(Case { name: format!("{}_{}", vname, if dep { "deposit" } else { "withdraw" }), ixs: vec![i], target: 0, signers: vec![clone_kp(&auth)], signer_key: Some(ak), entitled: vec!["authority"], subs });
             }
@@ -405,7 +416,7 @@ pub fn coherent_foreign_bank_cells(w: &World, t: &Twin) -> Vec<(String, Instruct
     v.push(("borrow".to_string(), ix::borrow(g0k, acct, ak, w.banks[t.b1].key, ta_b, pb, 1000, rem_b), clone_kp(&auth)));
     v.push(("repay".to_string(), fix(w.ix_repay(t.acct1, t.b1, ak, ta_b, 1000, None), g1k, acct1k), clone_kp(&auth)));
     if let Some(vb) = t.venue {
-        for (n, b) in [("kamino", vb[1]), ("solend", vb[3])] {
+        for (n, b) in [("kamino", vb[1]), ("solend", vb[3]), ("drift", vb[5])] {
             let ta = w.ta_of(t.acct1, b);
             v.push((format!("{}_deposit", n), fix(w.ix_venue_deposit(t.acct1, b, ak, ta, 1000), g1k, acct1k), clone_kp(&auth)));
             v.push((format!("{}_withdraw", n), fix(w.ix_venue_withdraw(t.acct1, b, ak, ta, 100, None), g1k, acct1k), clone_kp(&auth)));
@@ -418,7 +429,7 @@ pub fn coherent_foreign_bank_cells(w: &World, t: &Twin) -> Vec<(String, Instruct
 pub async fn run_c08(w: &mut World, m: &mut Mon, r: &mut R, t: &Twin) {
     let ids = Admin::identities(w, t.g0);
     let (px_a0, px_a1) = (save_price(w, t.a0), save_price(w, t.a1));
-    let px_v = t.venue.map(|vb| (save_price(w, vb[0]), save_price(w, vb[2])));
+    let px_v = t.venue.map(|vb| (save_price(w, vb[0]), save_price(w, vb[2]), save_price(w, vb[4])));
     let mut all_ids: Vec<(&'static str, Keypair)> = ids;
     all_ids.push(("authority", w.auth_of(t.acct0)));
     all_ids.push(("liquidator", w.auth_of(t.liquidator0)));
@@ -433,6 +444,7 @@ pub async fn run_c08(w: &mut World, m: &mut Mon, r: &mut R, t: &Twin) {
               // bankruptcy needs the whole portfolio worthless, venue collateral included
               scale_price(w, vb[0], 1e-7);
               scale_price(w, vb[2], 1e-7);
+              scale_price(w, vb[4], 1e-7);
           }
       }
       if phase == 0 {
@@ -525,9 +537,10 @@ pub async fn run_c08(w: &mut World, m: &mut Mon, r: &mut R, t: &Twin) {
       }
     }
     restore_price(w, t.a0, px_a0);
-    if let (Some(vb), Some((p0, p2))) = (t.venue, px_v) {
+    if let (Some(vb), Some((p0, p2, p4))) = (t.venue, px_v) {
         restore_price(w, vb[0], p0);
         restore_price(w, vb[2], p2);
+        restore_price(w, vb[4], p4);
     }
     // frozen account: only the group admin may act; every other identity (authority included) is refused
     let admin = clone_kp(&w.groups[t.g0].admin);
@@ -636,7 +649,7 @@ pub async fn run_c14(w: &mut World, m: &mut Mon, r: &mut R, t: &Twin) {
         if let Some(vb) = t.venue {
             // pass-through banks: the lender (healthy, no debt) acts so that withdraw has a control
             let lkp = w.auth_of(t.lender0);
-            for (dn, wn, b) in [("kamino_deposit", "kamino_withdraw", vb[0]), ("solend_deposit", "solend_withdraw", vb[2])] {
+            for (dn, wn, b) in [("kamino_deposit", "kamino_withdraw", vb[0]), ("solend_deposit", "solend_withdraw", vb[2]), ("drift_deposit", "drift_withdraw", vb[4])] {
                 let ta = w.ta_of(t.lender0, b);
                 v.push((dn, b, w.ix_venue_deposit(t.lender0, b, lkp.pubkey(), ta, 1000), clone_kp(&lkp)));
                 v.push((wn, b, w.ix_venue_withdraw(t.lender0, b, lkp.pubkey(), ta, 10, None), clone_kp(&lkp)));
@@ -653,7 +666,7 @@ pub async fn run_c14(w: &mut World, m: &mut Mon, r: &mut R, t: &Twin) {
     }
     if let Some(vb) = t.venue {
         let k = w.auth_of(t.lender0);
-        for b in [vb[0], vb[2]] {
+        for b in [vb[0], vb[2], vb[4]] {
             let i = w.ix_venue_deposit(t.lender0, b, k.pubkey(), w.ta_of(t.lender0, b), 100_000);
             let _ = w.exec(m, &[i], &[&k]).await;
         }
@@ -682,7 +695,7 @@ pub async fn run_c14(w: &mut World, m: &mut Mon, r: &mut R, t: &Twin) {
             m.r.distinct(&("cell", name, st as u8, o.ok()));
             // the per-instruction monitor flags forbidden acceptances; the table also demands that
             // withdraw / repay keep working on a reduce-only bank
-            if st == BankOperationalState::ReduceOnly && matches!(name, "withdraw" | "repay" | "liquidate(asset bank)" | "liquidate(debt bank)" | "kamino_withdraw" | "solend_withdraw") && !o.ok() {
+            if st == BankOperationalState::ReduceOnly && matches!(name, "withdraw" | "repay" | "liquidate(asset bank)" | "liquidate(debt bank)" | "kamino_withdraw" | "solend_withdraw" | "drift_withdraw") && !o.ok() {
                 m.r.violate("C14", &format!("C14/matrix/{}/rejected-on-reduce-only-bank", name), o.err_string());
             }
             let i = set_state(w.banks[bank].key, BankOperationalState::Operational);
@@ -757,7 +770,7 @@ pub async fn run_c14(w: &mut World, m: &mut Mon, r: &mut R, t: &Twin) {
             ];
             if let Some(vb) = t.venue {
                 let lkp = w.auth_of(t.lender0);
-                for b in [vb[0], vb[2]] {
+                for b in [vb[0], vb[2], vb[4]] {
                     let ta = w.ta_of(t.lender0, b);
                     v.push((w.ix_venue_deposit(t.lender0, b, lkp.pubkey(), ta, 500), clone_kp(&lkp)));
                     v.push((w.ix_venue_withdraw(t.lender0, b, lkp.pubkey(), ta, 5, None), clone_kp(&lkp)));
